@@ -9,6 +9,7 @@ Alphabet == {COp("payload", m, "", "") : m \in {"m1", "m2"}}
               \cup {COp("footer", f, "", "") : f \in {"f1", "empty"}}
               \cup {COp("assertion", a, "", "") : a \in {"a1", "empty"}}
               \cup {COp("mint", "", "k1", s) : s \in {"s1", "s2"}}
+              \cup {COp("clone", "", "", "")}
 
 Init == c = CInit /\ hist = <<>>
 Do(o) == Len(hist) < MaxLen /\ c' = CApply(c, o) /\ hist' = Append(hist, o)
